@@ -96,7 +96,9 @@ func (ms *metaStore) loadMeta(bucket string, object string, size int64, mtime ti
 	var meta Metadata
 	if len(bts) > 0 {
 		if err := json.Unmarshal(bts, &meta); err != nil {
-			return nil, err
+			// A metadata entry that cannot be read (the process died while
+			// writing it) is as good as a missing one; it is rebuilt below:
+			meta = Metadata{}
 		}
 	}
 
